@@ -37,7 +37,7 @@ ASSUMPTIONS = [
 SHARDS = {"quick": 4, "thorough": 16}
 
 ANNS = {
-    "none": None, "int": "int", "str": "str", "pos": "Pos", "list": "List[int]", "opt": "Optional[int]", "data": "Item", "float": "float",
+    "none": None, "int": "int", "str": "str", "pos": "Pos", "list": "List[int]", "opt": "Optional[int]", "data": "Item", "float": "float", "null": "None",
 }
 VALS = {
     "none": [1, "x", None, {"t": "list", "v": [1]}],
@@ -48,6 +48,7 @@ VALS = {
     "opt": [None, 4, "5", "x", ""],
     "data": [{"t": "dict", "v": [["n", 1]]}, {"t": "dict", "v": [["n", "2"], ["t", "ab"]]}, {"t": "dict", "v": []}, {"t": "dict", "v": [["n", "x"]]}, '{"n": 3}', 5],
     "float": [{"t": "float", "v": "1.5"}, 2, "2.5", "x"],
+    "null": [None, "null", 1, "x", 0],
 }
 PRELUDE = '''
 import utype
@@ -70,7 +71,7 @@ def types_of(mod):
     import typing
     from utype.parser.rule import Rule
     return {"none": None, "int": int, "str": str, "pos": mod.Pos, "list": Rule.parse_annotation(typing.List[int]),
-            "opt": Rule.parse_annotation(typing.Optional[int]), "data": mod.Item, "float": float}
+            "opt": Rule.parse_annotation(typing.Optional[int]), "data": mod.Item, "float": float, "null": type(None)}
 
 
 def validate_sig(sig):
@@ -598,7 +599,7 @@ def cases(draw):
         params.append({"name": "kw", "kind": "varkw", "ann": draw(st.sampled_from(["none", "int", "pos", "str"]))})
     wrapper = draw(st.sampled_from(["sync", "sync", "sync", "coro", "gen", "asyncgen"]))
     sig = {"params": params, "wrapper": wrapper, "context": draw(st.sampled_from(["function", "function", "method", "classmethod", "staticmethod"])),
-           "ret": draw(st.sampled_from([None, "int", "pos", "str", "list", "data"]))}
+           "ret": draw(st.sampled_from([None, "int", "pos", "str", "list", "data", "null"]))}
     if draw(st.sampled_from([False, False, True])):
         sig["options"] = {"data_first_search": True}
     if draw(st.sampled_from([False, False, True])):
@@ -650,7 +651,7 @@ def cases(draw):
                 if p.get("default"):
                     del assign[n]
     case = {"sig": sig, "assign": assign, "spell": spell}
-    rpool = {"int": [3, "4", "x"], "pos": [2, 0, "5"], "str": ["r", 9], "list": [{"t": "list", "v": [1, "2"]}, "x"], "data": [{"t": "dict", "v": [["n", "1"]]}, {"t": "dict", "v": []}], None: [1, "z", None]}
+    rpool = {"int": [3, "4", "x"], "pos": [2, 0, "5"], "str": ["r", 9], "list": [{"t": "list", "v": [1, "2"]}, "x"], "data": [{"t": "dict", "v": [["n", "1"]]}, {"t": "dict", "v": []}], None: [1, "z", None], "null": [None, None, 5, "null", ""]}
     case["ret_raw"] = draw(st.sampled_from(rpool[sig["ret"]]))
     if wrapper in ("gen", "asyncgen"):
         ypool = {"none": [1, "a"], "int": [1, "2", {"t": "float", "v": "3.0"}], "str": ["a", 5], "pos": [1, "2"]}[sig["yield_t"]]
